@@ -24,6 +24,14 @@ def anchors(a: Anchors):
     a.fact("accessor_groups_by_image_id", LBT, "LoaderAccessor.__iter__", "for key, group in molecules.groupby(IMAGE_ID_LABEL): image=_images[key]",
            lambda fn: all(t in norm(ast.unparse(fn)) for t in ["forkey,groupinldr.molecules.groupby(IMAGE_ID_LABEL)", "image=ldr._images[key]",
                                                                "SubtomogramLoader(image,group,"]))
+    a.fact("auto_id_skips_used", LBT, "BatchLoader.add_tomogram", "image_id = len(images); while image_id in images: image_id += 1",
+           lambda fn: "ifimage_idisNone:image_id=len(self._images)whileimage_idinself._images:image_id+=1" in norm(ast.unparse(fn)))
+    a.fact("add_registers_under_id", LBT, "BatchLoader.add_tomogram", "molecules tagged with image_id; concat after the existing ones; images[image_id] = image",
+           lambda fn: all(t in norm(ast.unparse(fn)) for t in ["pl.Series(IMAGE_ID_LABEL,np.full(len(molecules),image_id))", "_molecules_new=self._molecules.concat_with(molecules)",
+                                                               "self._images[image_id]=image", "self._molecules=_molecules_new"]))
+    a.fact("replace_drops_unused_images", LBT, "BatchLoader.replace", "images copied; ids without molecules are popped",
+           lambda fn: all(t in norm(ast.unparse(fn)) for t in ["out._images=self._images.copy()", "_id_exists=set(molecules.features[IMAGE_ID_LABEL].unique())",
+                                                               "forkinlist(out._images.keys()):ifknotin_id_exists:out._images.pop(k)"]))
     a.fact("mapping_tasks_zip_rows", LB, "LoaderBase.iter_mapping_tasks", "zip(dask_array, dict_iterrows(var_kwarg))",
            lambda fn: "forar,kwinzip(dask_array,_misc.dict_iterrows(var_kwarg))" in norm(ast.unparse(fn))
            and "dask_array=self.construct_loading_tasks(output_shape=output_shape)" in norm(ast.unparse(fn)))
@@ -223,6 +231,48 @@ def oracle_results(ck, rng):
                          key={"site": "batch.landscape", "interleaved": True}, oracle="interleaved_batch_landscape")
 
 
+def corr_registry(ck, rng):
+    """histories of add_tomogram (automatic / unused explicit ids) and molecule selections on a real BatchLoader against the
+    registry state machine: the id -> tomogram mapping, every molecule's image-id, and the tomogram each molecule is cut from"""
+    from acryo import BatchLoader, Molecules
+    cases = []
+    nops = {}
+    for it in range(30 if ck.tier == "quick" else 400):
+        b = BatchLoader(order=0, scale=1.0, output_shape=(1, 1, 1))
+        terms, py = [], []
+        tag = 10
+        for _ in range(int(rng.integers(2, 7 if ck.tier == "quick" else 12))):
+            k = int(rng.integers(0, 3))
+            if k < 2 or len(b.molecules) == 0:
+                tag += 1
+                n = int(rng.integers(1, 4))
+                explicit = None
+                if rng.random() < 0.35:
+                    explicit = int(rng.integers(0, 8))
+                    if explicit in b.images:
+                        explicit = None
+                tomo = np.full((3, 3, 3), float(tag), dtype=np.float32)
+                b.add_tomogram(tomo, Molecules(np.ones((n, 3))), image_id=explicit)
+                terms.append(f"OAdd {'None' if explicit is None else '(Some ' + zl(explicit) + ')'} {zl(tag)} {natl(n)}")
+                py.append(["add_tomogram", explicit, tag, n]); nops["add"] = nops.get("add", 0) + 1
+            else:
+                sel = [bool(x) for x in rng.integers(0, 2, size=len(b.molecules))]
+                if k == 2 and rng.random() < 0.5 and len(b.images) > 1:
+                    # drop every molecule of one tomogram (so that its id becomes free again)
+                    victim = list(b.images.keys())[int(rng.integers(0, len(b.images)))]
+                    sel = [int(i) != int(victim) for i in b.molecules.features["image-id"].to_list()]
+                b = b.replace(molecules=b.molecules.subset(np.array(sel, dtype=bool)))
+                terms.append(f"OKeep {lst([bl(x) for x in sel])}")
+                py.append(["keep", sel]); nops["keep"] = nops.get("keep", 0) + 1
+        kv = sorted((int(k_), int(round(float(np.asarray(v).flat[0])))) for k_, v in b.images.items())
+        ids = [int(i) for i in b.molecules.features["image-id"].to_list()] if len(b.molecules) else []
+        served = [int(round(float(x))) for x in np.asarray(b.asnumpy()).reshape(len(ids), -1)[:, 0]] if ids else []
+        cases.append((f"(check_registry {lst(terms)} {zlist([k_ for k_, _ in kv])} {zlist([v for _, v in kv])} {zlist(ids)} {zlist(served)})",
+                      {"history": py, "images": kv, "molecule_ids": ids, "served_by": served}))
+    ck.corr_run("batch_registry", ["AcryoGen.Anchors_C03", "Acryo.C03.Registry"], cases, shard=100, observable=True,
+                describe=lambda c: {"site": "registry", "ops": [h[0] for h in c["history"]][:6]}, classes=nops)
+
+
 def oracle_task_arguments(ck, rng):
     """the per-molecule arguments handed to the mapped function (quaternion, position) are those of the molecule whose
     sub-volume is being processed -- recorded by a scripted alignment model, for single and (interleaved) batch loaders"""
@@ -326,11 +376,12 @@ def run(ck: common.Check):
     a = Anchors(common.REPO)
     anchors(a)
     ck.write_anchors(PID, a)
-    ck.build(["C03"], ["C03/Property.v"])
+    ck.build(["C03"], ["C03/Property.v", "C03/PropertyRegistry.v"], extra=["C03/Registry.v"])
     rng = np.random.default_rng(ck.seed + 303)
     corr_histories(ck, rng)
     oracle_results(ck, rng)
     oracle_task_arguments(ck, rng)
+    corr_registry(ck, np.random.default_rng(ck.seed + 30303))
     oracle_binning_rows(ck, rng)
 
 
